@@ -21,7 +21,8 @@ fn check_message(lens: &[usize], seed: u64) -> Result<(), (String, String)> {
         .enumerate()
         .map(|(i, l)| rc::pattern(*l, (i as u64 + 1) * 1000003 + *l as u64, seed))
         .collect();
-    check_frames(&frames, format!("message with frame lengths {:?}", lens))
+    let what = if lens.len() > 12 { format!("message of {} frames (lengths {:?}...)", lens.len(), &lens[..6]) } else { format!("message with frame lengths {:?}", lens) };
+    check_frames(&frames, what)
 }
 
 /// The content family: frame bodies over the alphabet of bytes that mean something to the
@@ -124,6 +125,21 @@ fn check_frames(frames: &[Vec<u8>], what: String) -> Result<(), (String, String)
     }
     if out.len() > 300_000 && starts.len() > 2 {
         starts = vec![starts[0], *starts.last().unwrap()];
+    }
+    if starts.len() > 64 {
+        // a message of very many frames: the first two, the last two, and the frames around the powers of two
+        let n = starts.len();
+        let mut keep: Vec<usize> = vec![0, 1, n - 2, n - 1];
+        for p in [128usize, 256, 1024, 4096, 65536] {
+            for d in [p - 1, p, p + 1] {
+                if d < n {
+                    keep.push(d);
+                }
+            }
+        }
+        keep.sort();
+        keep.dedup();
+        starts = keep.into_iter().map(|i| starts[i]).collect();
     }
     let mut cuts: Vec<usize> = starts.iter().flat_map(|s| (1..=9).map(move |k| s + k)).chain([out.len() - 1]).filter(|c| *c > 0 && *c < out.len()).collect();
     cuts.sort();
@@ -580,6 +596,19 @@ pub fn run(tier: Tier, replay: Option<String>) -> i32 {
     } else {
         for l in 240..=270usize {
             grids.push(vec![l, 3]);
+        }
+    }
+    // frame COUNTS: messages of n tiny frames (lengths 0 and 1 alternating) for n around every power of two up to
+    // 4096 and a few very large n (any per-call work bound, batch size or counter width in the codec sits at such an n)
+    let mut counts: Vec<usize> = vec![4, 5, 8, 16, 17, 31, 32, 33, 63, 64, 65, 100, 127, 128, 129, 255, 256, 257, 511, 512, 513, 1000, 1023, 1024, 1025, 1026, 2047, 2048, 2049, 4095, 4096, 4097, 10_000, 20_000];
+    if tier == Tier::Thorough {
+        counts.extend([8191, 8192, 8193, 16_384, 32_768, 65_535, 65_536, 65_537, 70_000, 200_000]);
+    }
+    for n in counts {
+        grids.push((0..n).map(|i| i % 2).collect());
+        if n <= 4097 {
+            grids.push(vec![0; n]);
+            grids.push((0..n).map(|i| if i + 1 == n { 300 } else { 1 }).collect());
         }
     }
     let next = AtomicU64::new(0);
